@@ -69,7 +69,7 @@ var genURNs = []string{"tel:+12065550100", "tel:+12065550199", "tel:+25078812312
 
 // a random contact as JSON; group membership is deliberately arbitrary (query groups may be wrong)
 func genContactJSON(r *Rng, correctGroups bool) []byte {
-	c := map[string]any{"uuid": "5d76d86b-3bb9-4d5a-b822-c9d86f5d8e4f", "id": 1234, "name": Pick(r, []string{"", "Bob", "Ann Lee", "bob smith", "Élodie"}),
+	c := map[string]any{"uuid": "5d76d86b-3bb9-4d5a-b822-c9d86f5d8e4f", "id": 1234, "name": Pick(r, []string{"", "Bob", "Ann Lee", "bob smith", "Élodie", "Bob", "Ann Lee", "...", "-", "?!", " ", "$", "😀 x"}),
 		"status": Pick(r, []string{"active", "active", "active", "blocked", "stopped", "archived"}), "created_on": Pick(r, []string{"2018-06-20T11:40:30Z", "2023-01-02T03:04:05Z"})}
 	if l := Pick(r, []string{"", "eng", "fra", "spa"}); l != "" {
 		c["language"] = l
